@@ -63,7 +63,7 @@ fn main() {
 	}
 	std::fs::create_dir_all(&ctx.out).expect("create out dir");
 	// silence panic messages from catch_unwind'ed probes
-	std::panic::set_hook(Box::new(|info| { if let Some(l) = info.location() { *util::LAST_PANIC_LOC.lock().unwrap() = format!("{}:{}", l.file().trim_start_matches("/repo/"), l.line()); } }));
+	if std::env::var("VERIF_PANIC_VERBOSE").is_err() { std::panic::set_hook(Box::new(|info| { if let Some(l) = info.location() { *util::LAST_PANIC_LOC.lock().unwrap() = format!("{}:{}", l.file().trim_start_matches("/repo/"), l.line()); } })); }
 	let res = match cmd.as_str() {
 		"c20" => c20_cache::run(&ctx),
 		"c15" => c15_bbox::run(&ctx),
